@@ -33,6 +33,9 @@ type recAlloc struct {
 	misuse []string // releases of addresses that are not held
 	rel    map[string]int
 	log    []string
+	// hook, when set, is called on entry of a release with the point name and the address (overlap tests
+	// hold a release there, as a slow allocator back end would)
+	hook func(point, addr string)
 }
 
 func newRecAlloc(n int) *recAlloc {
@@ -73,6 +76,9 @@ func (a *recAlloc) AllocateIPv6(ctx context.Context, s *subscriber.Session, pool
 }
 
 func (a *recAlloc) ReleaseIPv4(ctx context.Context, ip net.IP) error {
+	if h := a.hook; h != nil {
+		h("allocator-release-v4", ip.String())
+	}
 	a.mu.Lock()
 	defer a.mu.Unlock()
 	k := ip.String()
@@ -90,6 +96,9 @@ func (a *recAlloc) ReleaseIPv4(ctx context.Context, ip net.IP) error {
 }
 
 func (a *recAlloc) ReleaseIPv6(ctx context.Context, ip net.IP) error {
+	if h := a.hook; h != nil {
+		h("allocator-release-v6", ip.String())
+	}
 	a.mu.Lock()
 	defer a.mu.Unlock()
 	k := ip.String()
